@@ -64,7 +64,7 @@ inline
 auto make_scanline_reader(detail::filesystem::path const& path, FormatTag const&)
     -> typename get_scanline_reader<std::wstring, FormatTag>::type
 {
-    return make_scanline_reader(path.wstring(), image_read_settings<FormatTag>());
+    return make_scanline_reader(path.wstring(), FormatTag());
 }
 
 template <typename Device, typename FormatTag>
@@ -80,7 +80,11 @@ auto make_scanline_reader(Device& io_dev, FormatTag const&,
     >::type* /*dummy*/ = nullptr)
     -> typename get_scanline_reader<Device, FormatTag>::type
 {
-    return make_scanline_reader(io_dev, image_read_settings<FormatTag>());
+    // (there is no overload that takes settings to delegate to: this one did not compile)
+    typename get_read_device<Device, FormatTag>::type device(io_dev);
+
+    return typename get_scanline_reader<Device, FormatTag>::type(
+        device, image_read_settings<FormatTag>());
 }
 
 }} // namespace boost::gil
